@@ -30,6 +30,8 @@ pub enum PollKind {
     StartSend,
     PollFlush,
     PollClose,
+    /// poll_close that completes with an error when `ready`
+    PollCloseErr,
 }
 
 #[derive(Clone, Debug, Serialize, Deserialize, PartialEq)]
@@ -77,6 +79,9 @@ pub enum Op {
     NewTask { task: Slot, wrap: Wrap, span: Option<Slot> },
     Poll { task: Slot, kind: PollKind, ready: bool },
     DropTask { task: Slot },
+    /// only inside a poll body: creates a child span of the local parent that the scripted future
+    /// keeps across the suspension point; it is released when the future itself is dropped
+    HoldChild,
     // ---- #[trace] twins
     /// calls the plain and then the #[trace] twin `f` of the corpus with arguments derived from
     /// `arg`; the traced call runs with the span in `slot` as local parent (None: no local parent)
